@@ -67,6 +67,73 @@ func (se *setExec) call(recv Value, m string, args ...Value) Value {
 	return res[0]
 }
 
+// shape: the list invariant of the representation named by the property's
+// anchors (head/tail sentinels, doubly linked, sorted disjoint intervals).
+// Returns "" when it holds or when the representation has other field names.
+func (se *setExec) shape(s Value) string {
+	so, ok := s.(*Obj)
+	if !ok || so == nil || so.field("Head") == nil || so.field("Tail") == nil {
+		return ""
+	}
+	head, _ := so.field("Head").v.(*Obj)
+	tail, _ := so.field("Tail").v.(*Obj)
+	if head == nil || tail == nil || head.field("Forward") == nil || head.field("Backward") == nil {
+		return ""
+	}
+	var fwd []*Obj
+	seen := map[*Obj]bool{}
+	cur, _ := head.field("Forward").v.(*Obj)
+	if cur == nil {
+		if b, _ := tail.field("Backward").v.(*Obj); b != nil {
+			return "Head.Forward is nil but Tail.Backward is not"
+		}
+		return ""
+	}
+	for cur != nil && cur != tail {
+		if seen[cur] {
+			return "the forward chain has a cycle"
+		}
+		seen[cur] = true
+		fwd = append(fwd, cur)
+		cur, _ = cur.field("Forward").v.(*Obj)
+	}
+	if cur != tail {
+		return "the forward chain does not end at the tail sentinel"
+	}
+	var bwd []*Obj
+	cur, _ = tail.field("Backward").v.(*Obj)
+	steps := 0
+	for cur != nil && cur != head && steps < 1000 {
+		bwd = append(bwd, cur)
+		cur, _ = cur.field("Backward").v.(*Obj)
+		steps++
+	}
+	if cur != head {
+		return "the backward chain does not end at the head sentinel"
+	}
+	if len(bwd) != len(fwd) {
+		return fmt.Sprintf("the forward chain has %d intervals, the backward chain %d", len(fwd), len(bwd))
+	}
+	for i := range fwd {
+		if fwd[i] != bwd[len(bwd)-1-i] {
+			return "the backward chain visits other nodes than the forward chain"
+		}
+	}
+	prevEnd := int64(-1 << 40)
+	for _, nd := range fwd {
+		b, _ := nd.field("Begin").v.(int64)
+		e, _ := nd.field("End").v.(int64)
+		if b > e {
+			return fmt.Sprintf("an interval [%d,%d] is empty", b, e)
+		}
+		if b <= prevEnd {
+			return fmt.Sprintf("intervals are not sorted and disjoint (…%d] then [%d…)", prevEnd, b)
+		}
+		prevEnd = e
+	}
+	return ""
+}
+
 // mathematical side: bit sets over [0, 63]
 type bits uint64
 
@@ -152,6 +219,53 @@ func histories(n, k int) [][]setOp {
 	return out
 }
 
+// bridgingHistories: every set of exactly k disjoint, non-touching intervals
+// over [0,n] (inserted in ascending and in descending order) followed by
+// `extra` arbitrary insertions — the shapes in which a new range bridges or
+// lands between several existing intervals.
+func bridgingHistories(n, k, extra int) [][]setOp {
+	var bases [][]setOp
+	var gen func(start int, cur []setOp)
+	gen = func(start int, cur []setOp) {
+		if len(cur) == k {
+			bases = append(bases, append([]setOp{}, cur...))
+			return
+		}
+		for b := start; b <= n; b++ {
+			for e := b; e <= n; e++ {
+				gen(e+2, append(cur, setOp{b, e}))
+			}
+		}
+	}
+	gen(0, nil)
+	var ops []setOp
+	for b := 0; b <= n; b++ {
+		for e := b; e <= n; e++ {
+			ops = append(ops, setOp{b, e})
+		}
+	}
+	var out [][]setOp
+	var ext func(h []setOp, left int)
+	ext = func(h []setOp, left int) {
+		if left == 0 {
+			out = append(out, h)
+			return
+		}
+		for _, o := range ops {
+			ext(append(append([]setOp{}, h...), o), left-1)
+		}
+	}
+	for _, b := range bases {
+		ext(b, extra)
+		rev := make([]setOp, len(b))
+		for i := range b {
+			rev[len(b)-1-i] = b[i]
+		}
+		ext(rev, extra)
+	}
+	return out
+}
+
 type setFinding struct {
 	Key  string // observer + failure kind (stable)
 	What string // first witness
@@ -181,6 +295,9 @@ func (se *setExec) observe(h []setOp, n int, report func(key, what string)) {
 	if s == nil {
 		return
 	}
+	if sh := se.shape(s); sh != "" {
+		report("AddRange corrupts the list", fmt.Sprintf("after %s: %s", name, sh))
+	}
 	guard("Has", func() {
 		for x := -1; x <= n+1; x++ {
 			got, _ := se.call(s, "Has", int64(x)).(bool)
@@ -202,6 +319,9 @@ func (se *setExec) observe(h []setOp, n int, report func(key, what string)) {
 	})
 	guard("Copy", func() {
 		cp := se.call(s, "Copy")
+		if sh := se.shape(cp); sh != "" {
+			report("Copy corrupts the list", fmt.Sprintf("%s.Copy(): %s", name, sh))
+		}
 		if got, _ := se.call(cp, "String").(string); got != m.str() {
 			report("Copy wrong", fmt.Sprintf("%s.Copy() holds %s, the set is %s", name, got, m.str()))
 		}
@@ -222,6 +342,10 @@ func (se *setExec) observe(h []setOp, n int, report func(key, what string)) {
 		guard("Complement", func() {
 			want := rangeBits(0, limit) &^ m
 			cs := se.call(s, "Complement", int64(limit))
+			if sh := se.shape(cs); sh != "" {
+				report("Complement corrupts the list", fmt.Sprintf("%s.Complement(%d): %s", name, limit, sh))
+				return
+			}
 			if got, _ := se.call(cs, "String").(string); got != want.str() {
 				report("Complement wrong", fmt.Sprintf("%s.Complement(%d) holds %s, expected %s", name, limit, got, want.str()))
 				return
@@ -250,7 +374,7 @@ func (se *setExec) observe(h []setOp, n int, report func(key, what string)) {
 }
 
 // observe2 compares the binary observers on a pair of histories.
-func (se *setExec) observe2(h1, h2 []setOp, report func(key, what string)) {
+func (se *setExec) observe2(h1, h2 []setOp, n int, report func(key, what string)) {
 	n1, n2 := histName(h1), histName(h2)
 	defer func() {
 		if p := recover(); p != nil {
@@ -267,6 +391,9 @@ func (se *setExec) observe2(h1, h2 []setOp, report func(key, what string)) {
 	a, ma := se.build(h1)
 	b, mb := se.build(h2)
 	u := se.call(a, "Union", b)
+	if sh := se.shape(u); sh != "" {
+		report("Union corrupts the list", fmt.Sprintf("a=%s, b=%s: a.Union(b): %s", n1, n2, sh))
+	}
 	if got, _ := se.call(u, "String").(string); got != (ma | mb).str() {
 		report("Union wrong", fmt.Sprintf("a=%s, b=%s: a.Union(b) holds %s, expected %s", n1, n2, got, (ma | mb).str()))
 	} else if got, _ := se.call(u, "Len").(int64); int(got) != (ma | mb).len() {
@@ -277,6 +404,28 @@ func (se *setExec) observe2(h1, h2 []setOp, report func(key, what string)) {
 	}
 	if got, _ := se.call(a, "Equal", b).(bool); got != (ma == mb) {
 		report("Equal wrong", fmt.Sprintf("a=%s, b=%s: a.Equal(b) = %v, a=%s b=%s", n1, n2, got, ma.str(), mb.str()))
+	}
+	// sets obtained by Complement are sets too: they must behave as operands
+	{
+		cb := se.call(b, "Complement", int64(n))
+		mc := rangeBits(0, n) &^ mb
+		nc := n2 + fmt.Sprintf(".Complement(%d)", n)
+		if got, _ := se.call(a, "Intersects", cb).(bool); got != (ma&mc != 0) {
+			report("Intersects wrong", fmt.Sprintf("a=%s, c=%s: a.Intersects(c) = %v, a=%s c=%s", n1, nc, got, ma.str(), mc.str()))
+		}
+		if got, _ := se.call(cb, "Intersects", a).(bool); got != (ma&mc != 0) {
+			report("Intersects wrong", fmt.Sprintf("a=%s, c=%s: c.Intersects(a) = %v, a=%s c=%s", n1, nc, got, ma.str(), mc.str()))
+		}
+		u2 := se.call(a, "Union", cb)
+		if got, _ := se.call(u2, "String").(string); got != (ma | mc).str() {
+			report("Union wrong", fmt.Sprintf("a=%s, c=%s: a.Union(c) holds %s, expected %s", n1, nc, got, (ma | mc).str()))
+		}
+		if got, _ := se.call(a, "Equal", cb).(bool); got != (ma == mc) {
+			report("Equal wrong", fmt.Sprintf("a=%s, c=%s: a.Equal(c) = %v, a=%s c=%s", n1, nc, got, ma.str(), mc.str()))
+		}
+		if got, _ := se.call(cb, "Intersects", b).(bool); got {
+			report("Intersects wrong", fmt.Sprintf("b=%s: b.Complement(%d).Intersects(b) = true", n2, n))
+		}
 	}
 	if got, _ := se.call(a, "String").(string); got != ma.str() {
 		report("binary operation mutates", fmt.Sprintf("a=%s, b=%s: after Union/Intersects/Equal a holds %s", n1, n2, got))
@@ -294,6 +443,11 @@ func setSemantics(r *Repo, n, k, k2 int) (map[string]string, int, error) {
 		return nil, 0, err
 	}
 	hs := histories(n, k)
+	hs = append(hs, bridgingHistories(n+2, 3, 1)...)
+	if n >= 6 {
+		hs = append(hs, bridgingHistories(n, 3, 2)...)
+		hs = append(hs, bridgingHistories(n+3, 4, 1)...)
+	}
 	hs2 := histories(n, k2)
 	type job struct{ i, j int }
 	var jobs []job
@@ -316,9 +470,15 @@ func setSemantics(r *Repo, n, k, k2 int) (map[string]string, int, error) {
 			jb := jobs[x]
 			rep := func(key, what string) { out[x] = append(out[x], res{key, what, x}) }
 			if jb.j < 0 {
-				se.observe(hs[jb.i], n, rep)
+				nn := n
+				for _, o := range hs[jb.i] {
+					if o.e > nn {
+						nn = o.e
+					}
+				}
+				se.observe(hs[jb.i], nn, rep)
 			} else {
-				se.observe2(hs2[jb.i], hs2[jb.j], rep)
+				se.observe2(hs2[jb.i], hs2[jb.j], n, rep)
 			}
 		}
 	})
